@@ -58,6 +58,16 @@ def gen_scenario(rng):
         sgn = rng.choice([1, -1])
         f = {k: sgn * v for k, v in P.items() if k}
         return {"spin": spin, "labels": labels, "f": f, "steps": steps, "extra": rng.choice([1, 2, 0.5])}
+    if len(steps) == 2 and not spin and rng.random() < 0.3:
+        # the first of two constraints takes the unary-slack branch (log_trick = False, positive weights, negative constant):
+        # whatever the second one needs must not collide with its ancillas
+        w = [rng.choice([1, 2]) for _ in labels[:2]]
+        P1 = {(l,): wi for l, wi in zip(labels[:2], w)}
+        P1[()] = -rng.randint(2, sum(w)) if sum(w) >= 2 else -2
+        steps[0] = {"mode": "cmp", "P": P1, "rel": "le", "lt": False}
+    if rng.random() < 0.15:
+        # small real coefficients: the objective in quarters, so that the weights may lie below 1
+        f = {k: v / 4 for k, v in f.items()}
     # sometimes align the objective with a constrained polynomial so that the optimum sits at an extreme of its range
     # (where slack sizing matters)
     cmps = [st for st in steps if st["mode"] == "cmp"]
@@ -94,6 +104,16 @@ def gate_like_scenarios():
                 f = {(l,): (-1 if b else 1) for l, b in zip((z, x, y), bits)}
                 out.append({"spin": False, "labels": [z, x, y], "f": f, "extra": 1, "fork": None,
                             "steps": [{"mode": "cmp", "P": {k: scale * v for k, v in P.items()}, "rel": "eq", "lt": True}]})
+    # at most one of n variables, with fractional weights and an objective that would rather set them all
+    for n in (2, 3):
+        for cq in (0.25, 0.5, 1):
+            for extra in (0.25, 0.5):
+                labs = ["u", "v", "w"][:n]
+                P = {(l,): 1 for l in labs}
+                P[()] = -1
+                for rel, PP in (("le", P), ("ge", {k: -v for k, v in P.items()})):
+                    out.append({"spin": False, "labels": ["u", "v", "w"], "f": {(l,): -cq for l in labs}, "extra": extra, "fork": None,
+                                "steps": [{"mode": "cmp", "P": dict(PP), "rel": rel, "lt": True}]})
     return out
 
 
